@@ -13,6 +13,7 @@ import itertools
 import datetime
 import random
 import atexit
+import inspect
 import time
 
 from . import api
@@ -99,6 +100,8 @@ def to_real(v):
 def call_outcome(fn, args):
     try:
         r = fn(*args)
+        if inspect.isgenerator(r):
+            r = list(r)       # a generator function's outcome is the sequence it yields (or what consuming it raises)
         return api.Outcome(True, value=r)
     except api.SpecRaise as sr:
         return api.Outcome(False, exc=sr.cls, err=sr.value)
@@ -125,6 +128,8 @@ def outcomes_same(a, b):
 def expand_call_args(fn_decl_names, vararg_name, values):
     out = []
     for n, v in zip(fn_decl_names, values):
+        if v is api.OMITTED:
+            continue
         if n == vararg_name:
             out.extend(list(v))
         else:
@@ -202,7 +207,7 @@ class NativeContract(object):
             pools = []
             for n in self.names:
                 if n in case:
-                    pools.append([case[n]])
+                    pools.append(api.samples_of(case[n], rng) if isinstance(case[n], api.Dom) else [case[n]])
                 else:
                     d = self.c.args.get(n)
                     if d is None or 'pyobj' in d.kinds or 'hostfn' in d.kinds or 'symmap' in d.kinds:
